@@ -320,7 +320,9 @@ func (d *jsonDecoder) unmarshalMap(protomap protoreflect.Map, fd protoreflect.Fi
 	}()
 
 	for key, raw := range marshaled {
-		d.dec = json.NewDecoder(strings.NewReader(strconv.Quote(key)))
+		// JSON's own quoting: Go's (strconv.Quote) writes controls and non-printable runes as \x.., \a, \v, \U........, which JSON does not know
+		quoted, _ := json.Marshal(key)
+		d.dec = json.NewDecoder(bytes.NewReader(quoted))
 
 		if fd.MapKey().Kind() == protoreflect.BoolKind {
 			// JSON object keys are always strings, but booleans aren't accepted as strings anywhere else
